@@ -53,6 +53,10 @@ pub struct Timing {
     /// command, nor in the one that directly follows the end of its busy signal
     #[serde(default)]
     pub nwr_gap: bool,
+    /// the card makes use of N_RC (minimum 1 byte, same table): a command frame that starts in
+    /// the byte slot directly after the last byte of its previous response is not seen
+    #[serde(default)]
+    pub nrc_gap: bool,
 }
 
 #[derive(Clone, Debug, Serialize, Deserialize, PartialEq)]
@@ -211,6 +215,11 @@ pub struct CardInner {
     sticky: u8,
     /// the next byte slot in which the card neither answers nor signals busy is its N_WR slot
     nwr_pending: bool,
+    /// the last byte in `out` belongs to a command response (not to a data block)
+    resp_tail: bool,
+    /// the previous byte slot carried the last byte of a response
+    nrc_slot: bool,
+    nrc_swallow: u8,
     // monitor
     pub viol: Vec<String>,
     pub cmd_log: Vec<(u8, u32)>,
@@ -289,6 +298,9 @@ impl SimCard {
             last_write_failed: false,
             sticky: 0,
             nwr_pending: false,
+            resp_tail: false,
+            nrc_slot: false,
+            nrc_swallow: 0,
             viol: Vec::new(),
             cmd_log: Vec::new(),
             monitor_on: true,
@@ -371,6 +383,7 @@ impl CardInner {
         for b in bytes {
             self.out.push_back(*b as u16);
         }
+        self.resp_tail = true;
     }
 
     fn addr_to_block(&self, arg: u32) -> Result<u32, u8> {
@@ -389,6 +402,7 @@ impl CardInner {
     }
 
     fn queue_data_block(&mut self, payload: &[u8]) {
+        self.resp_tail = false;
         let n = self.reads_sent;
         self.reads_sent += 1;
         let mut token: u16 = 0xFE;
@@ -740,6 +754,8 @@ impl CardInner {
         // what the card drives during this byte is decided before it has seen the byte
         let was_busy = self.busy > 0 && self.out.is_empty();
         let answering = !self.out.is_empty();
+        let nrc_slot = self.nrc_slot;
+        self.nrc_slot = false;
         let miso = if let Some(b) = self.out.pop_front() {
             if b & 0x100 != 0 && self.frame.is_empty() && mosi == 0xFF {
                 // the host is reading this corrupted byte (not talking over it with a command)
@@ -752,6 +768,11 @@ impl CardInner {
         } else {
             0xFF
         };
+        if answering && self.out.is_empty() {
+            // that was the last byte of whatever the card had to say
+            self.nrc_slot = self.resp_tail && self.busy == 0 && self.streaming_read.is_none();
+            self.resp_tail = false;
+        }
         // refill a streaming read
         if self.out.is_empty() {
             if let Some(b) = self.streaming_read {
@@ -770,7 +791,14 @@ impl CardInner {
         match self.rx {
             Rx::Command => {
                 if self.frame.is_empty() {
-                    if mosi & 0xC0 == 0x40 {
+                    if self.nrc_swallow > 0 {
+                        // rest of a frame whose first byte was not seen
+                        self.nrc_swallow -= 1;
+                    } else if mosi & 0xC0 == 0x40 && nrc_slot && self.timing.nrc_gap {
+                        // N_RC: the card is not listening yet; the frame is lost
+                        self.v(format!("CMD{} frame started in the byte slot directly after the card's response (N_RC = 0, the timing table's minimum is 1 byte): the card is not able to accept it", mosi & 0x3F));
+                        self.nrc_swallow = 5;
+                    } else if mosi & 0xC0 == 0x40 {
                         // a frame starts
                         let cmd = mosi & 0x3F;
                         if was_busy && cmd != 0 && cmd != 12 {
